@@ -536,6 +536,12 @@ impl<'a, 'tcx> Cx<'a, 'tcx> {
                 v.push(("const_path", J::s(&tcx.def_path_str(u.def))));
             }
         }
+        if let mir::Const::Val(mir::ConstValue::Scalar(rustc_middle::mir::interpret::Scalar::Ptr(p, _)), _) = &c.const_ {
+            let (prov, _off) = p.into_raw_parts();
+            if let Some(rustc_middle::mir::interpret::GlobalAlloc::Static(sdid)) = tcx.try_get_global_alloc(prov.alloc_id()) {
+                v.push(("static", J::s(&tcx.def_path_str(sdid))));
+            }
+        }
         match ty.kind() {
             ty::Bool | ty::Int(_) | ty::Uint(_) | ty::Char => {
                 if let Some(si) = c.const_.try_eval_scalar_int(tcx, self.env) {
